@@ -1,4 +1,9 @@
 ------------------------------ MODULE MC_Merge ------------------------------
 EXTENDS Merge, Json
-Emit == PrintT(<<"SCENARIO", ToJson([cfg |-> cfg, inputs |-> inputs])>>)
+\* the model's plan is emitted with every scenario so that the driver can stratify its sample
+NSeg == Len(Plan(cfg, inputs))
+Partial == \E i \in 1..Len(inputs) : \E j \in 1..Len(inputs) :
+             i # j /\ Len(inputs[i]) > 0 /\ Len(inputs[j]) > 0 /\ HasBounds(inputs[i]) /\ HasBounds(inputs[j])
+             /\ Cmp(cfg, Lo(inputs[i]), Lo(inputs[j])) < 0 /\ LE(cfg, Lo(inputs[j]), Hi(inputs[i]))
+Emit == PrintT(<<"SCENARIO", ToJson([cfg |-> cfg, inputs |-> inputs, nseg |-> NSeg, partial |-> Partial])>>)
 =============================================================================
